@@ -64,6 +64,18 @@ class RecordingRng:
             self._args.append(x if isinstance(x, (int, np.integer)) else [int(v) for v in np.asarray(x).ravel()])
         return res
 
+    def shuffle(self, x, *a, **k):
+        """in-place shuffle of an integer index vector = drawing a permutation (`permutation(n)` is `shuffle(arange(n))`)"""
+        before = np.array(x, copy=True)
+        self._gen.shuffle(x, *a, **k)
+        arr = np.asarray(x)
+        if arr.ndim == 1 and np.issubdtype(arr.dtype, np.integer):
+            self._log.append(("permutation", [int(v) for v in arr]))
+            if self._args is not None:
+                self._args.append(int(len(before)) if np.array_equal(before, np.arange(len(before))) else [int(v) for v in before])
+        else:
+            self._log.append(("shuffle-data", None))
+
     def __getattr__(self, name):
         attr = getattr(self._gen, name)
         if callable(attr):
